@@ -33,7 +33,7 @@ META = {
     "assumptions": ["plain converters that never dispatch (numpy.array, asarray, ...) are outside "
                     "the claim", "functions no template engages are reported as unreached"],
     "min_evaluations": {"quick": 6000, "thorough": 100000},
-    "required_counters": ["negative_functions_engaged", "negative_ufuncs", "ufunc_methods",
+    "required_counters": ["negative_functions_engaged", "negative_namesake_warmups", "negative_ufuncs", "ufunc_methods",
                           "spelling_pairs"],
 }
 
@@ -614,6 +614,30 @@ def run_negative(spec, ctx):
         # functions taking part in the override protocol
         seen = set()
         unreached = []
+        # history: a registered function that shares its __name__ with an unregistered one of
+        # another numpy module (numpy.diagonal / numpy.linalg.diagonal, outer, matmul, ...) is
+        # called first, so that whatever the dispatcher remembers from served calls is in place
+        # when its namesake has to be refused (seed C08-r13-1: lookup memo keyed by __name__)
+        unregistered_names = set()
+        for module in (numpy, numpy.linalg, numpy.fft):
+            for name in dir(module):
+                func = getattr(module, name, None)
+                if callable(func) and hasattr(func, "_implementation") and \
+                        func not in numpoly.FUNCTION_COLLECTION:
+                    unregistered_names.add(getattr(func, "__name__", name))
+        for key in list(numpoly.FUNCTION_COLLECTION):
+            kname = getattr(key, "__name__", "")
+            if kname not in unregistered_names or "save" in kname or "load" in kname:
+                continue
+            for tmpl in ladder:
+                try:
+                    with warnings.catch_warnings():
+                        warnings.simplefilter("ignore")
+                        tmpl(key)
+                except Exception:  # pylint: disable=broad-except
+                    continue
+                ctx.count("negative_namesake_warmups")
+                break
         for modname, module in (("numpy", numpy), ("numpy.linalg", numpy.linalg),
                                 ("numpy.fft", numpy.fft)):
             for name in sorted(dir(module)):
